@@ -68,10 +68,21 @@ fn validate_integrity(integrity: &ssri::Integrity) -> bool {
     // For each hash, check if it has a valid base64-encoded digest
     for hash in &integrity.hashes {
         // Check if digest is valid base64 using the modern API
-        if base64::engine::general_purpose::STANDARD
-            .decode(&hash.digest)
-            .is_err()
-        {
+        let Ok(digest) = base64::engine::general_purpose::STANDARD.decode(&hash.digest) else {
+            return false;
+        };
+
+        // ... and has the length of its algorithm: the content path is derived from the
+        // digest's leading bytes, an empty or one-byte digest panics there
+        let expected_len = match hash.algorithm {
+            ssri::Algorithm::Sha512 => 64,
+            ssri::Algorithm::Sha384 => 48,
+            ssri::Algorithm::Sha256 => 32,
+            ssri::Algorithm::Sha1 => 20,
+            ssri::Algorithm::Xxh3 => 16,
+            _ => return false,
+        };
+        if digest.len() != expected_len {
             return false;
         }
     }
